@@ -274,9 +274,16 @@ def main(argv=None):
 
     # ---- conformance pass (shim vs the real library on concrete inputs) ----
     conf_n = 0
+    shared_scratch = Scratch(build=True)
+    import atexit
+    atexit.register(shared_scratch.cleanup)
     if hasattr(mod, "conformance"):
         from vf.symx import Unsupported as _Unsup
         try:
+            if getattr(mod, "CONFORMANCE_BUILD", False):
+                # compare the interpreters with a build of the *current* source, not with
+                # whatever compiled extension happens to sit in the repository directory
+                os.environ["VERIF_REAL_ESUTIL"] = shared_scratch.path()
             conf_n = mod.conformance()
         except _Unsup as e:
             # the current source uses a NumPy feature the shim lacks: not decidable
@@ -305,7 +312,7 @@ def main(argv=None):
         for c in candidates:
             by_label.setdefault(c["label"].split(" [")[0], []).append(c)
         per_label = getattr(mod, "REPLAYS_PER_LABEL", 6)
-        sc = Scratch(build=getattr(mod, "NEEDS_BUILD", True))
+        sc = shared_scratch if (shared_scratch.dir and getattr(mod, "NEEDS_BUILD", True)) else Scratch(build=getattr(mod, "NEEDS_BUILD", True))
         try:
             sdir = sc.path()
             for lab, cs in by_label.items():
@@ -366,6 +373,7 @@ def main(argv=None):
             print("  what: %s" % r.get("what", "")[:300])
         rc = 1
 
+    shared_scratch.cleanup()
     for i in inconclusive[:12]:
         print("INCONCLUSIVE property=%s %s" % (prop, i[:300]))
     if len(inconclusive) > 12:
